@@ -7,7 +7,7 @@
 From Coq Require Import String List NArith ZArith Bool.
 From J5V.lib Require Import Text Outcome.
 From J5V.model Require Import BclLexer BclParser BclFmt.
-From J5V.proofs Require Import BclPosProofs BclLexerProofs BclParserProofs BclFmtProofs BclFmtLitProofs BclReflowProofs.
+From J5V.proofs Require Import BclPosProofs BclLexerProofs BclParserProofs BclFmtProofs BclFmtLitProofs BclReflowProofs BclLexLitProofs.
 Import ListNotations.
 
 (* ---- the position-free document of a fragment list -------------------------------------------- *)
@@ -122,6 +122,18 @@ Theorem C09_int_separation : forall c r tail s,
   rest s = (c :: r) ++ tail -> lexes_to s INT (c :: r) tail.
 Proof. exact relex_int. Qed.
 Print Assumptions C09_int_separation.
+
+(* token level, for every token of every kind: whatever NextToken emits (from any state of any
+   input) is read back, type and literal, from the text tokenSource renders for it, whenever the
+   text that follows cannot extend it ([sep_ok]: a regex is not followed by '/', a comment or
+   description ends the line, an identifier is not followed by an identifier rune, a number is
+   not followed by a digit or a dot) *)
+Theorem C09_token_roundtrip : forall fuel s t s' tail s2,
+  next_token_fuel fuel s = (LTok t, s') -> sep_ok (ty t) tail ->
+  rest s2 = token_source (mkTok (ty t) (lit t) pos0 pos0) ++ tail ->
+  lexes_to s2 (ty t) (lit t) tail.
+Proof. exact token_roundtrip. Qed.
+Print Assumptions C09_token_roundtrip.
 
 (* idempotence of the description re-flow (finding 22 lived here): feeding the re-flowed lines back
    gives the same lines, for every text and every width (also negative) *)
